@@ -138,6 +138,9 @@ func c14Worker(args []string) int {
 			l.origin = "go.sum database tree"
 			l.url = "http://" + host
 		}
+		if spec.Feeder == "rekor" {
+			l.url = "http://" + host + "/?treeID=1"
+		}
 		l.id = uni.ID(l.origin)
 		l.srv = &stublog.Server{Flavour: spec.Feeder, Branch: u.Main, Hashes: mainSrv.Hashes, TreeID: "1"}
 		// Nothing published yet: the checkpoint endpoint answers 404.
@@ -263,7 +266,7 @@ func c14Worker(args []string) int {
 	fetches := func(l *c14Log) int {
 		n := 0
 		for _, r := range l.srv.Requests() {
-			if strings.Contains(r, "checkpoint") || strings.Contains(r, "latest") {
+			if strings.Contains(r, "checkpoint") || strings.Contains(r, "latest") || (strings.Contains(r, "api/v1/log") && !strings.Contains(r, "/proof")) {
 				n++
 			}
 		}
@@ -539,6 +542,10 @@ func c14(tier string) int {
 			jobs = append(jobs, job{c14Spec{Mode: mode, Storage: st, Feeder: "tiles", Schedules: all, Fork: true}, fmt.Sprintf("tiles/%s/%s", mode, st)})
 		}
 	}
+	// The other three feeder types follow every schedule at once, like tiles.
+	for _, ft := range []string{"serverless", "pixel", "rekor"} {
+		jobs = append(jobs, job{c14Spec{Mode: "running", Storage: "mem", Feeder: ft, Schedules: all, Fork: true}, ft + "/running/mem"})
+	}
 	// The same with checkpoints as large as real ones get: a log that publishes
 	// checkpoints already cosigned by 90 other witnesses (~9 KiB) and one that
 	// signs 70 KiB of extension lines.
@@ -624,7 +631,7 @@ func c14(tier string) int {
 	run.Set("served_checkpoint_checks", checks)
 	run.Set("steps", steps)
 	run.Set("exhaustive", true)
-	run.Set("rule", fmt.Sprintf("omniwitness.Main is run for real (generated ConfigLogs, listener on 127.0.0.1:0, outbound HTTP answered by in-process stub log servers generated from a 65537-leaf tree) for ALL strictly increasing growth schedules of length <= %d over sizes %v followed by a fork step: feeder type tiles follows every schedule at once (one configured log per schedule) in {running: 400 ms polling, in-memory and SQLite} and {restart between every step: one feed cycle per start, SQLite file}; feeder type sumdb (its origin line is fixed, so one log per process) runs a covering subset in the quick tier and every schedule in the thorough tier. Both feeder types also follow logs whose checkpoints are large (already cosigned by 90 other witnesses, ~9 KiB; 70 KiB of extension lines). After each growth the service's HTTP GET checkpoint must be the log's head, cosigned, after 3 complete poll cycles (cycle completion observed at the stub, not timed) / after the single cycle of a restart (write-handle close observed by wrapping the persistence); after the fork step it must still be the last checkpoint of the witnessed history. distinct_nontrivial = distinct (feeder, mode, storage, schedule)", maxLen, c14Sizes))
+	run.Set("rule", fmt.Sprintf("omniwitness.Main is run for real (generated ConfigLogs, listener on 127.0.0.1:0, outbound HTTP answered by in-process stub log servers generated from a 65537-leaf tree) for ALL strictly increasing growth schedules of length <= %d over sizes %v followed by a fork step: feeder type tiles follows every schedule at once (one configured log per schedule) in {running: 400 ms polling, in-memory and SQLite} and {restart between every step: one feed cycle per start, SQLite file}; feeder types serverless, pixel and rekor follow every schedule at once on the running in-memory service; feeder type sumdb (its origin line is fixed, so one log per process) runs a covering subset in the quick tier and every schedule in the thorough tier. Both feeder types also follow logs whose checkpoints are large (already cosigned by 90 other witnesses, ~9 KiB; 70 KiB of extension lines). After each growth the service's HTTP GET checkpoint must be the log's head, cosigned, after 3 complete poll cycles (cycle completion observed at the stub, not timed) / after the single cycle of a restart (write-handle close observed by wrapping the persistence); after the fork step it must still be the last checkpoint of the witnessed history. distinct_nontrivial = distinct (feeder, mode, storage, schedule)", maxLen, c14Sizes))
 	run.Assumption("goroutine interleavings and timer races inside Main are not enumerated; the scenario space is. Safety deadlines (90 s / 40 s per step, >= 100x the normal latency) only end a broken build")
 	// Addressing leg: the schedules above stay below 65 538 leaves; the tile
 	// paths the sumdb feeder will ask for in larger trees (indices up to 10^9,
